@@ -1174,7 +1174,7 @@ class _Small(ast.NodeTransformer):
                     out.append(ast.copy_location(ast.If(test=negate(v.test), body=[ast.copy_location(ast.Assign(targets=st.targets, value=v.orelse, lineno=st.lineno), st)], orelse=[]), st))
                     continue
             if isinstance(st, ast.If) and len(st.body) == 1 and len(st.orelse) == 1 and all(isinstance(x, ast.Assign) and len(x.targets) == 1 for x in (st.body[0], st.orelse[0])) \
-                    and isinstance(st.body[0].targets[0], (ast.Name, ast.Attribute)) and txt(st.body[0].targets[0]) == txt(st.orelse[0].targets[0]) \
+                    and isinstance(st.body[0].targets[0], (ast.Name, ast.Attribute, ast.Subscript)) and txt(st.body[0].targets[0]) == txt(st.orelse[0].targets[0]) \
                     and not isinstance(st.orelse[0].value, ast.IfExp) and not isinstance(st.body[0].value, ast.IfExp):
                 val = ast.IfExp(test=st.test, body=st.body[0].value, orelse=st.orelse[0].value)
                 out.append(ast.copy_location(ast.Assign(targets=st.body[0].targets, value=_lift_attr(val), lineno=st.lineno), st))
